@@ -20,6 +20,7 @@ def gen_case(rs, tier):
     rng = W.stream(rs, "design")
     krng = W.stream(rs, "knobs")
     cfg = gen.swarm(krng, tier)
+    cfg["combinators"] = krng.random() < 0.3
     cfg["bad_tables"] = False
     if krng.random() < 0.5:
         cfg["kinds"] = sorted(set(cfg["kinds"]) | {"mintrials", "exclude"})
